@@ -5,6 +5,8 @@ import Bandit.Gen.Blacklists
 import Bandit.Gen.Registry
 import Bandit.Gen.Constants
 import Bandit.Gen.Defaults
+import Bandit.Proofs.Total2
+import Bandit.Proofs.Loc
 /-!
 # Driver core: JSON helpers and the `scan` family of ops.
 
@@ -132,7 +134,11 @@ def opScan (j : Json) : Except String Json := do
     ("skipped_tests", Json.num (skippedCount es)),
     ("crashes", Json.arr ((crashesOf es).map (fun s => Json.str (strOf s))).toArray),
     ("modelled", Json.arr ((checks.map (fun c => Json.str (strOf c.id))).toArray)),
-    ("visits", Json.num (visits tree).length)]
+    ("visits", Json.num (visits tree).length),
+    -- the hypotheses of `Props.C06.scan_no_crash`, evaluated on this very input: the harness treats a `false` on a
+    -- tree CPython produced (or on bandit's generated default settings) as a broken tie
+    ("shape_ok", Json.bool (treeShapeOK tree)),
+    ("config_ok", Json.bool (configOK (effectiveCfg over)))]
 
 def opNosec (j : Json) : Except String Json := do
   let t ← getStr j "text"
